@@ -29,7 +29,7 @@ def snap(x: Any):
     if isinstance(x, HTML):
         return ("HTML", str(x))
     if isinstance(x, str):
-        return ("str", x)
+        return (type(x).__name__, str.__str__(x))
     if isinstance(x, HTMLDependency):
         return ("Dep", x.name, str(x.version), _plain(x.source), _plain(x.script),
                 _plain(x.stylesheet), _plain(x.meta), x.all_files,
